@@ -12,6 +12,7 @@ import (
 	"github.com/hashicorp/go-hclog"
 
 	"github.com/hashicorp/consul/acl"
+	"github.com/hashicorp/consul/acl/resolver"
 	"github.com/hashicorp/consul/agent/consul"
 	"github.com/hashicorp/consul/agent/structs"
 	"github.com/hashicorp/consul/agent/token"
@@ -101,6 +102,7 @@ type ResolveCase struct {
 	Down    string     `json:"down"`
 	ACLs    bool       `json:"acls"`
 	Fresh   bool       `json:"fresh"` // ACLTokenTTL: an hour (entries always fresh) or negative (always stale)
+	Roles   bool       `json:"roles,omitempty"` // resolveTokenToIdentityAndRoles instead of ResolveToken
 	Step    StepScript `json:"step"`
 	StepNo  int        `json:"step_no"`
 	Class   string     `json:"class"` // root | local | plain
@@ -291,7 +293,19 @@ func runStep(r *consul.ACLResolver, b *fakeBackend, rc ResolveCase, st StepScrip
 		rc.CacheIn = identTerm(id)
 		cachedIn, _ = id.(*structs.ACLToken)
 	}
-	res, err := r.ResolveToken(secret)
+	var res resolver.Result
+	var err error
+	if rc.Roles {
+		var id structs.ACLIdentity
+		id, err = r.VerifC09ResolveRoles(secret)
+		if err == nil {
+			res.ACLIdentity = id
+		} else if consul.IsACLRemoteError(err) {
+			res.ACLIdentity, err = downIdentity{}, nil // what ResolveToken would turn into the down policy
+		}
+	} else {
+		res, err = r.ResolveToken(secret)
+	}
 	t1 := time.Now()
 	r.VerifC09WaitIdentityFetch(cacheKey)
 	if id, ok := r.VerifC09CachedIdentity(cacheKey); ok {
@@ -376,7 +390,7 @@ func runStep(r *consul.ACLResolver, b *fakeBackend, rc ResolveCase, st StepScrip
 			granted.AccessorID, t0.Sub(*granted.ExpirationTime))
 		c.Sig = map[string]any{"kind": "expired-token-honoured"}
 	}
-	if granted != nil && c.Oracle == "" {
+	if granted != nil && c.Oracle == "" && !rc.Roles {
 		if res.Authorizer.NodeRead("x", nil) != acl.Allow || res.Authorizer.NodeWrite("x", nil) == acl.Allow {
 			c.Oracle = "authorizer-mismatch: granted token does not carry exactly its policy"
 		}
@@ -411,6 +425,11 @@ func runStep(r *consul.ACLResolver, b *fakeBackend, rc ResolveCase, st StepScrip
 	c.Res = &rc
 	return c
 }
+
+// downIdentity stands for the unexported missingIdentity{reason: "primary-dc-down"}
+type downIdentity struct{ structs.ACLIdentity }
+
+func (downIdentity) ID() string { return "primary-dc-down" }
 
 var downPolicies = []string{"allow", "deny", "extend-cache", "async-cache"}
 
@@ -462,6 +481,10 @@ func genResolveCases(rng *rand.Rand, tier string, emit func(*Case)) {
 		r := newResolver(rc.Down, rc.ACLs, rc.Fresh, b)
 		serverLike := rng.Intn(4) == 0
 		secrets := []string{"sec-a", "sec-a", "sec-a", "sec-b", "", "allow", "manage", "deny", "recovery-secret", "mgmt-secret"}
+		if rc.ACLs && rng.Intn(5) == 0 {
+			rc.Roles = true // the roles copy of the loop: plain secrets, no policy resolution involved
+			secrets = []string{"sec-a", "sec-a", "sec-b"}
+		}
 		steps := 3 + rng.Intn(6)
 		var hist []StepScript
 		for k := 0; k < steps; k++ {
@@ -479,6 +502,9 @@ func genResolveCases(rng *rand.Rand, tier string, emit func(*Case)) {
 				// an asynchronous refresh races with the cache eviction done by the policy error paths:
 				// keep those two apart so that the cache after the step is determined
 				if rc.Down == "async-cache" && (a.Pol == "toknotfound" || a.Pol == "tokdenied") {
+					a.Pol = "ok"
+				}
+				if rc.Roles {
 					a.Pol = "ok"
 				}
 				st.Attempts = append(st.Attempts, a)
@@ -564,7 +590,7 @@ func replayResolve(raw []byte) *Case {
 	if err := json.Unmarshal(raw, &r); err != nil {
 		panic(err)
 	}
-	rc := ResolveCase{Down: r.Res.Down, ACLs: r.Res.ACLs, Fresh: r.Res.Fresh}
+	rc := ResolveCase{Down: r.Res.Down, ACLs: r.Res.ACLs, Fresh: r.Res.Fresh, Roles: r.Res.Roles}
 	b := &fakeBackend{}
 	res := newResolver(rc.Down, rc.ACLs, rc.Fresh, b)
 	defer res.Close()
